@@ -45,7 +45,7 @@ def true_ranks(n, rho):
 
 
 def record(n, rho, r0, drmin, drmax, nswp=None, cache=False, m=None, none_at=None, cb_at=None,
-           seed=1, mcs=10**5, e=None, e_vld=None, vld=False, tau=1.1, return_Y=False, pre=None, zeros=False, ydtype=None):
+           seed=1, mcs=10**5, e=None, e_vld=None, vld=False, tau=1.1, return_Y=False, pre=None, zeros=False, ydtype=None, fscale_pow=0):
     """Run teneva.cross once and return the trace (cfg + events)."""
     # Seams: C._iter (row choices) and C._func (batch requests).  If a refactoring removed one of them the recorder
     # degrades instead of failing: without _iter the trace carries no iter events (validated against the count
@@ -54,6 +54,8 @@ def record(n, rho, r0, drmin, drmax, nswp=None, cache=False, m=None, none_at=Non
     cores, F = make_target(n, rho, seed)
     d = len(n)
     generic = True
+    if fscale_pow:
+        F = F * 2.0 ** fscale_pow          # the same target times an exact power of two: same index sets, same counts
     if ydtype is not None:
         # an objective that answers in another numeric type (float32 / float16 / int64 / bool-free ints): the target has
         # small integer entries, exactly representable in every such type, so the objective itself is unchanged
@@ -217,6 +219,8 @@ def record(n, rho, r0, drmin, drmax, nswp=None, cache=False, m=None, none_at=Non
     tr = dict(cfg=cfg, ev=ev, meta=dict(seed=seed, rho=rho, none_at=none_at, cb_at=cb_at, e=e, e_vld=e_vld, vld=vld, npre=len(pre)))
     if ydtype is not None:
         tr['meta']['ydtype'] = str(ydtype)
+    if fscale_pow:
+        tr['meta']['fscale_pow'] = fscale_pow
     if degraded:
         tr['degraded'] = degraded
     if return_Y:
